@@ -156,6 +156,7 @@ func driveBudget(c *ctx) error {
 		"traversed by the real ipldutil.Traverser without a budget and with budget n in {1,2,needs-1,needs,needs+1,random}; " +
 		"non-trivial = the budget is exceeded (needs > n) on a traversal with a missing block or >= 4 loads; distinct = distinct terms"
 	run := func(bc budgetCase, tag string) {
+		c.inflight(bc)
 		r := rng.New(bc.Seed)
 		d, sel, present, hard, desc := genBudgetWorld(r)
 		segs := &segTable{m: map[string]uint64{}}
